@@ -442,6 +442,9 @@ func cmdCheck(args []string) int {
 				regress("solvers answered " + why + " within the extended time limit")
 			} else {
 				r.Out = "undecided"
+				if r.R.Hint != "" {
+					why += " (" + r.R.Hint + ")"
+				}
 				undecided = append(undecided, o.Name+": "+why)
 				fmt.Printf("UNDECIDED obligation=%s reason=%s\n", o.Name, why)
 			}
